@@ -13,7 +13,8 @@ CONSTANTS P,          \* processor ids
           InitProcs,  \* processors passed to NewTracerProvider (sequence)
           SCtxs,      \* context kinds used for Shutdown  ("live", "cancelled")
           FCtxs,      \* context kinds used for ForceFlush
-          MaxSteps, MaxSpans
+          MaxSteps, MaxSpans,
+          Faults      \* fault modes the environment may switch to ({} = never a fault), see LifecycleModel
 
 VARIABLES st, steps, act
 vars == <<st, steps, act>>
@@ -24,6 +25,7 @@ OpSet(s) ==
   \cup {[op |-> "Shutdown", ctx |-> c] : c \in SCtxs}
   \cup {[op |-> "ForceFlush", ctx |-> c] : c \in FCtxs}
   \cup {[op |-> "Tracer"]}
+  \cup {[op |-> "Fault", f |-> f] : f \in (Faults \cup (IF Faults = {} THEN {} ELSE {"none"})) \ {s.fault}}
   \cup (IF s.n < MaxSpans THEN {[op |-> "StartEnd", via |-> v] : v \in {"old", "new"}} ELSE {})
 
 Init == st = TPEmpty(P, InitProcs) /\ steps = 0 /\ act = [op |-> "Init"]
@@ -36,7 +38,7 @@ View == <<st, steps>>
 EmitEdge == PrintT("EDGE " \o ToJson([from |-> st, act |-> act', to |-> st']))
 
 (* the statement, on the model *)
-Inv == TPOk(st)
+Inv == TPOk(st) /\ ExporterShutWith(Kinds, st)
 UnknownUnregisterIsStutter ==
   [][(act'.op = "Unregister" /\ act'.p \notin SeqToSet(st.procs)) =>
         [st' EXCEPT !.out = NoOut] = [st EXCEPT !.out = NoOut]]_vars
